@@ -24,6 +24,8 @@ def decodeURLPrefix (p : Bytes) : Option Bytes :=
   else
     let d := GoHtml.unescapeString p
     if Rx.matchString template_containsWhitespaceOrControlPattern d then none
+    -- numeric character references without ';' are refused (Go's decoder and browsers disagree on some of them)
+    else if Rx.matchString template_unterminatedNumericCharRefPattern p then none
     else if Rx.matchString template_endsWithPercentEncodingPrefixPattern d then none
     else some d
 
